@@ -1,8 +1,8 @@
 (* Correspondence check for C38: histories recorded from real goroutines calling
    Store.WriteVolumeNeedle / ReadVolumeNeedle / DeleteVolumeNeedle on one volume (immediate and
    batched write paths), each call with the stamps of its Inv and Res on a global atomic counter
-   and the result it got; after the run: one read per key and cookie, the .dat size and the
-   needle-map entries. *)
+   and the result it got; after the run: one read per key and cookie, the .dat size, the .dat
+   records in file order and the needle-map entries. *)
 From Coq Require Import List NArith ZArith Bool.
 From SW Require Export base.Verdict model.Volume model.VolumeConc.
 Import ListNotations.
@@ -26,29 +26,41 @@ Definition Dl (id inv res key cookie : N) (e : err) (size : Z) : orec event out 
   mk_orec id inv res (0, RawDelete key cookie) (ODelete e size).
 Definition Fr (key cookie : N) (e : err) (count : Z) (v : view) : N * N * out := (key, cookie, ORead e count v).
 
+Definition Rs (off id cookie size : N) : rsig := (off, id, cookie, size).
+
 Record case := {
+  ro : bool * bool;                      (* noWriteOrDelete, noWriteCanDelete of the volume before the run *)
   calls : hist;                          (* at most 10 calls *)
-  fin_reads : final_reads;               (* a read of every key with every cookie after the run *)
-  fin_dat : N;                           (* size of the .dat file after the run *)
-  fin_nm : list (N * option (N * Z))     (* needle-map entry (offset, size) of every key *)
+  fin : fin_obs                          (* after the run: .dat size, the .dat records in file order
+                                            (ScanVolumeFile), the needle-map entry of every key, a read
+                                            of every key with every cookie *)
 }.
 
-(* two calls overlap in real time *)
-Definition overlaps (h : hist) : bool :=
-  existsb (fun a => existsb (fun b => negb (o_id a =? o_id b) && (o_inv a <? o_res b) && (o_inv b <? o_res a)) h) h.
+(* the largest number of calls open at the same time *)
+Definition open_at (h : hist) (t : N) : nat := length (filter (fun a => (o_inv a <=? t) && (t <? o_res a)) h).
+Definition max_overlap (h : hist) : nat := fold_right (fun a m => Nat.max (open_at h (o_inv a)) m) O h.
 
 Definition served (a : orec event out) : bool :=
   match o_out a with ORead ENone _ v => 0 <? blen (v_data v) | _ => false end.
 
 Definition check (c : case) : outcome :=
+  let '(a, b) := ro c in
+  let evs := map o_op (calls c) in
   {| (* admits: the recorded history with its exact results (error class, unchanged flag, sizes,
-        every field read back) and the final .dat size / needle map is one that the model's
-        machine can produce, i.e. it is linearizable w.r.t. the sequential volume model *)
-     o_corr := lin_check_vol (fin_dat c) (fin_nm c) (calls c);
-     (* the property: linearizable w.r.t. the register specification id -> (cookie, last written
-        needle), and the reads made afterwards are those of the register state of that order *)
-     o_prop := lin_check_reg (fin_reads c) (calls c);
-     o_trig := None;
-     o_nontrivial := overlaps (calls c) && existsb served (calls c) |}.
+        every field read back) and the final observables is one that the model's machine can
+        produce, i.e. it is linearizable w.r.t. the sequential volume model *)
+     o_corr := lin_check_vol a b (fin c) (calls c);
+     (* the property: linearizable w.r.t. the register specification with every answer field, and
+        the reads made afterwards are those of the register state of that order; needles
+        representable (outside: no statement, so the case counts as failing) *)
+     o_prop := wf_history evs && lin_check_reg a b (fo_reads (fin c)) (calls c);
+     (* C01's findings seen through the concurrent API: the history contains an empty-payload write
+        (0) or a metadata-only rewrite (1) AND every call on every key that no such write touches
+        still answers per specification (per-key check); otherwise no trigger *)
+     o_trig := match conc_finding evs with
+               | Some k => if wf_history evs && lin_check_pk a b (fo_reads (fin c)) (calls c) then Some k else None
+               | None => None
+               end;
+     o_nontrivial := Nat.leb 3 (max_overlap (calls c)) && existsb served (calls c) |}.
 
 Definition summarize_cases (l : list case) : summary := summarize check l.
